@@ -1,5 +1,11 @@
 """C03 — a task's exception surfaces exactly once at the wait, after the group stopped (DESIGN.md §3 C03).
 
+Session-3 extension: the CLIENTS of the exception machinery have their own models (Model/C03Exec.lean task_arena::execute, C03Graph.lean
+graph::wait_for_all as a wrapper around DispatchEH, C03Pipe.lean parallel_pipeline token ownership), parametrised by catch/rethrow SKELETONS
+that checks/c03_skel.py re-extracts from the source text on every run; their event logs are validated by checks/c03_clients.py; harness/c03/spy.cpp
+adds white-box observation points (pipeline buffers at the exit, token memory, small-object ledger); harness/shim/verif_hb.h recomputes
+happens-before for the exception object and for every body's writes against the thread that leaves the waiting call.
+
 Theorems (lean/TbbVerif/Props/C03.lean) are about two executable models (Model/C03.lean):
   DispatchEH  N dispatching threads, scripted tasks, one context (cancelled flag with single-winner exchange, stored
               exception), wait counter — the try/catch of local_wait_for_all, execute_and_wait's rethrow, task_group's reset;
@@ -18,6 +24,8 @@ import tempfile
 from concurrent.futures import ThreadPoolExecutor
 
 import common
+import c03_skel
+import c03_clients
 from common import REPO, BuildError, cxx_build, drv, gen_write, log, sh
 
 PID = "C03"
@@ -39,6 +47,12 @@ PROGS = {
     "pinvoke5": (["body"], 5, 5),
     "pinvoke7": (["body"], 7, 7),
     "pipeline": (["body", "item"], 5, 8),
+    "pipeline1": (["body", "item"], 5, 8),
+    "pipeline2": (["body", "item"], 4, 7),
+    "tg_handle": (["body"], 5, 8),
+    "itg": (["body"], 4, 7),
+    "pforeach_cancel": (["body", "item"], 4, 7),
+    "flow_prio": (["body"], 4, 7),
     "tg_wait": (["body"], 6, 10),
     "tg_tree": (["body"], 6, 10),
     "tg_raw": (["body"], 5, 8),
@@ -51,6 +65,8 @@ PROGS = {
     "arena_nested": (["body"], 4, 6),
 }
 EVENT_PROGS = ("tg_wait", "tg_tree", "tg_raw", "raw")
+CLIENT_EVENT_PROGS = ("arena_direct", "flow", "flow_prio", "pipeline", "pipeline1")      # event logs validated against ExecEH / GraphEH / PipeEH
+PIPE_PROGS = ("pipeline", "pipeline1", "pipeline2")
 PAIR_PROGS = {"arena_direct": 3, "pfor_simple": 4, "preduce_auto": 4, "tg_wait": 4, "tg_tree": 4, "pinvoke3": 3, "pinvoke5": 5, "pipeline": 3, "pforeach": 3, "flow": 3}
 
 # Known-finding classes (keys for KNOWN_FINDINGS.txt): fault positions on which the unchanged library breaks the property.
@@ -63,15 +79,23 @@ def finding_key(spec, mon):
         return "deterministic-reduce-range-split-throws-leaks-body"
     if prog == "flow" and "item" in kinds and ("HANG" in mon or "CRASH" in mon):
         return "flow-message-copy-throws-leaks-wait-reference"
-    if prog == "pipeline" and faults and ("still alive" in mon or "never destroyed" in mon) and "item" in mon:
+    if "never deallocated" in mon and (set(kinds) & {"item", "bcopy", "rcopy", "bsplit", "rsplit"}):
+        return "task-constructor-throws-leaks-small-object"
+    # exactly the tokens that the white-box snapshot found parked in an input buffer at the exit, and only while the tear-down does not clear
+    if prog in PIPE_PROGS and faults and "parked in a serial filter's buffer at cancellation were never destroyed" in mon and "although the tear-down" not in mon \
+            and "NOT parked" not in mon and not PIPE_CLEARS[0]:
         return "pipeline-cancel-leaks-buffered-tokens"
     return None
 
 
+SKEL = {}
+PIPE_CLEARS = [False]      # generated fact pipeSkel.bufferClears of the current tree (set by gen)
+
+
 def vclass(mon):
-    for pat, name in (("HANG", "hang"), ("CRASH", "crash"), ("terminate", "terminate"), ("swallowed", "swallowed"), ("destroyed twice", "double-destroy"),
-                      ("still alive", "leak"), ("never destroyed", "leak"), ("still running", "early-exit"), ("started after", "late-start"),
-                      ("not reusable", "not-reusable"), ("still cancelled", "not-reset"), ("still holds", "not-reset"), ("not thrown by", "foreign-exception"),
+    for pat, name in (("HANG", "hang"), ("happens-before", "hb-race"), ("CRASH", "crash"), ("terminate", "terminate"), ("swallowed", "swallowed"), ("destroyed twice", "double-destroy"),
+                      ("still alive", "leak"), ("never destroyed", "leak"), ("never deallocated", "leak"), ("deallocated twice", "double-destroy"), ("not observed", "harness"), ("still running", "early-exit"), ("started after", "late-start"),
+                      ("not reusable", "not-reusable"), ("is_cancelled() is false", "flags"), ("exception_thrown() is", "flags"), ("is_cancelled() is true", "flags"), ("reset() left", "flags"), ("dropped without being submitted", "exactly-once"), ("not cancelled", "flags"), ("still cancelled", "not-reset"), ("still holds", "not-reset"), ("not thrown by", "foreign-exception"),
                       ("no body of the group threw", "spurious-exception"), ("join callback executed", "join-on-cancelled"),
                       ("processed", "exactly-once"), ("did not", "lost-work")):
         if pat in mon:
@@ -84,10 +108,25 @@ def vclass(mon):
 HENV = {"PATH": "/usr/bin:/bin", "LANG": "C"}
 
 
+WRAPS = ["_ZN3tbb6detail2r116execute_and_waitERNS0_2d14taskERNS2_18task_group_contextERNS2_12wait_contextES6_",
+         "_ZN3tbb6detail2r115allocate_memoryEm", "_ZN3tbb6detail2r117deallocate_memoryEPv",
+         "_ZN3tbb6detail2r18allocateERPNS0_2d117small_object_poolEmRKNS2_14execution_dataE", "_ZN3tbb6detail2r18allocateERPNS0_2d117small_object_poolEm",
+         "_ZN3tbb6detail2r110deallocateERNS0_2d117small_object_poolEPvmRKNS2_14execution_dataE", "_ZN3tbb6detail2r110deallocateERNS0_2d117small_object_poolEPvm"]
+
+
 def build():
-    objs = common.shim_runtime_objects()
-    return cxx_build(PID, "eh", ["harness/c03/eh.cpp", common.SHIM_SRC],
-                     flags=["-O1", "-g", "-fno-access-control", "-I" + REPO + "/src"] + common.SHIM_FLAGS, libs=objs + ["-ldl"])
+    """eh.cpp (programs, monitors) + spy.cpp (white-box observation points; it compiles src/tbb/parallel_pipeline.cpp itself, so the runtime's
+    own parallel_pipeline object is left out of the link)."""
+    objs = [o for o in common.shim_runtime_objects() if not os.path.basename(o).startswith("parallel_pipeline.cpp")]
+    exe = os.path.join(common.BUILD, PID, "eh")
+    try:        # a rebuilt runtime object keeps its name: force the relink
+        if any(os.path.getmtime(o) >= os.path.getmtime(exe) for o in objs):
+            os.remove(exe + ".link.json")
+    except OSError:
+        pass
+    return cxx_build(PID, "eh", ["harness/c03/eh.cpp", "harness/c03/spy.cpp", common.SHIM_SRC],
+                     flags=["-O1", "-g", "-fno-access-control", "-I" + REPO + "/src"] + common.SHIM_FLAGS,
+                     libs=objs + ["-ldl"] + ["-Wl,--wrap=" + w for w in WRAPS])
 
 
 # --------------------------------------------------------------------------------------------------
@@ -100,8 +139,8 @@ def spec_line(sp):
     if sp.get("script") is not None:
         pre = "script %d " % len(sp["script"]) + " ".join("%d %d %d %s" % (b, j, len(k), " ".join(map(str, k))) for (b, j, k) in sp["script"]) + "\n"
     if sp.get("schedfile"):
-        return pre + "replay %s %d %d %s %d %s\n" % (sp["prog"], sp["P"], sp["size"], f, sp.get("flags", 0), sp["schedfile"])
-    return pre + "run %s %d %d %d %d %s %d\n" % (sp["prog"], sp["P"], sp["size"], sp["seed"], sp["stay"], f, sp.get("flags", 0))
+        return pre + "replay %s %d %d %s %d %s\n" % (sp["prog"], sp["P"], sp["size"], f, sp.get("flags", 0) | (4 if PIPE_CLEARS[0] else 0), sp["schedfile"])
+    return pre + "run %s %d %d %d %d %s %d\n" % (sp["prog"], sp["P"], sp["size"], sp["seed"], sp["stay"], f, sp.get("flags", 0) | (4 if PIPE_CLEARS[0] else 0))
 
 
 def parse_blocks(out):
@@ -435,8 +474,18 @@ def gen(ck, exe):
     ok = xo is not None and so is not None and lo is not None
     ck.oblige("gen:memory orders on my_cancellation_requested / my_exception observed in a throwing run", "generated", ok,
               "" if ok else "could not observe exchange/store/load in the trace: %s" % r["mon"])
-    if ok:      # (when nothing could be observed the previous file stays: the obligation above has failed already)
-        gen_write("C03", "def cancelXchgOrder : Nat := %d\ndef excStoreOrder : Nat := %d\ndef excLoadOrder : Nat := %d\n" % (xo or 0, so or 0, lo or 0))
+    # catch / rethrow skeletons of the clients, re-extracted from the source text
+    sk, errs, info = c03_skel.all_skeletons(REPO)
+    ck.extra["generated"]["skeletons"] = sk
+    ck.oblige("gen:catch/rethrow skeletons of task_arena::execute + delegated_task, the dispatcher's catch block, graph::wait_for_all + reset, "
+              "stage_task / input_buffer / concrete_filter, task_group::wait / run_and_wait extracted from the source", "generated", not errs, "; ".join(errs))
+    PIPE_CLEARS[0] = bool(sk.get("pipeSkel") and sk["pipeSkel"][8] == 1)
+    SKEL.update(sk)
+    if ok and not errs:      # (when something could not be observed / extracted the previous file stays: an obligation above has failed already)
+        body = "def cancelXchgOrder : Nat := %d\ndef excStoreOrder : Nat := %d\ndef excLoadOrder : Nat := %d\n" % (xo or 0, so or 0, lo or 0)
+        for name in ("execSkel", "graphSkel", "pipeSkel", "tgSkel", "catchSkel"):
+            body += "def %s : List Nat := [%s]\n" % (name, ", ".join(map(str, sk[name])))
+        gen_write("C03", body)
 
 
 # --------------------------------------------------------------------------------------------------
@@ -510,7 +559,10 @@ def report(ck, exe, spec, r, obligation_kind="monitor"):
 def run(ck):
     quick = ck.tier == "quick"
     rng = ck.rng
-    ck.rule = ("E-SHIM on the whole instrumented runtime: 23 programs (parallel_for x 4 partitioners, parallel_reduce x 3, parallel_deterministic_reduce x 2, "
+    ck.rule = ("E-SHIM on the whole instrumented runtime: 32 programs (session 3: + parallel_pipeline with serial_in_order / parallel-input stage mixes and an explicit context, "
+               "task_handle/defer incl. a dropped handle and run_and_wait(handle), isolated_task_group, parallel_for_each whose bodies add feeder items while the group is being cancelled, "
+               "flow graph with prioritised nodes, extra schedules of three callers on a full task_arena so that functors are delegated and throw on another thread, "
+               "a family of pipeline runs with the fault late in the stream so that tokens are parked in input buffers at cancellation); the original 23: (parallel_for x 4 partitioners, parallel_reduce x 3, parallel_deterministic_reduce x 2, "
                "parallel_for_each with feeder, parallel_invoke 2/3/5/7, parallel_pipeline (serial_in_order, parallel, serial_out_of_order stages, value tokens), "
                "task_group run/wait, tasks submitting tasks, run_and_wait, nested groups, self-cancelling group, flow graph (two function_nodes), "
                "task_arena::execute with the throwing functor / a throwing parallel_for inside, three callers on a full arena so that calls are delegated) "
@@ -526,7 +578,17 @@ def run(ck):
         "memory reclamation of task objects (the harness tracks user-visible objects only)",
         "the library's own task types' cancel()/finalize() paths are tied by the implementation-side monitors under the explored fault/thread schedules (sampled), not by theorems about their code",
         "join callbacks that throw: theorem eh_every_task_finalised_once assumes no throwing join; the model and the real library both finalise such a task twice (reported as finding)"]
-    ck.trusted += ["harness/shim (atomic shim + baton scheduler)", "harness/c03/eh.cpp (instrumented Range/Body/functor/item/exception types, monitors M1-M7)",
+    ck.assumptions += [
+        "clients (session 3): ExecEH (task_arena::execute: direct / delegated, any thread or the caller itself runs the delegate), GraphEH (wait_for_all handler, flags, reset as a wrapper whose "
+        "DispatchEH component is proved to be a DispatchEH run), PipeEH (stage tasks and token objects; parking / waking / recycling are nondeterministic choices that over-approximate the buffer discipline, which is C07's); "
+        "theorems are for every skeleton satisfying `ok`, instantiated at the regenerated skeleton by `decide`",
+        "NOT modelled in Lean: priority_task_selector objects of prioritised flow-graph nodes, task_handle objects that are dropped without being submitted, isolated_task_group's isolation delegates, "
+        "the small-object storage itself (covered by the interposed r1::allocate / deallocate ledger), nodes' internal state after an exception (`needsReset` stands for it)",
+        "happens-before monitor (harness/shim/verif_hb.h): the exception object's construction vs the thread that catches the rethrown exception, every body's end vs the thread that leaves the waiting call — "
+        "recomputed from the memory orders the code passes; a weakened order that is covered by another synchronisation chain (the wait counter) is not a race and is only seen by exception_publication_orders"]
+    ck.trusted += ["checks/c03_skel.py (skeleton extraction by pattern over comment-stripped source text)", "checks/c03_clients.py (event log -> client model actions; canonical DispatchEH schedule for the graph wrapper, "
+                   "one model stage task per pipeline item)", "harness/c03/spy.cpp (white-box: input buffers inspected between quiescence and ~pipeline; interposed allocators)",
+                   "harness/shim (atomic shim + baton scheduler)", "harness/c03/eh.cpp (instrumented Range/Body/functor/item/exception types, monitors M1-M7)",
                    "event-log -> model-action translation in checks/c03.py (sampled correspondence)"]
     exe = build()
     gen(ck, exe)
@@ -541,7 +603,7 @@ def run(ck):
         for s in range(nseeds):
             P = 2 + (s + len(prog)) % 3
             seed = ck.seed * 100003 + s * 7 + 1
-            base.append(mk(prog, P, size, seed, 48 + 48 * (s % 4), [], 1 if prog in EVENT_PROGS else 0))
+            base.append(mk(prog, P, size, seed, 48 + 48 * (s % 4), [], 1 if prog in EVENT_PROGS or prog in CLIENT_EVENT_PROGS else 0))
     dry = run_specs(exe, base)
     specs = []
     for b, r in zip(base, dry):
@@ -564,13 +626,26 @@ def run(ck):
             if quick and len(pairs) > 15:
                 pairs = rng.sample(pairs, 15)
             for (i, j) in pairs:
-                specs.append(mk(prog, P, size, seed + i * 31 + j, (16, 32, 64)[(i + j) % 3], ["body:%d" % i, "body:%d" % j], 1 if prog in EVENT_PROGS else 0))
+                specs.append(mk(prog, P, size, seed + i * 31 + j, (16, 32, 64)[(i + j) % 3], ["body:%d" % i, "body:%d" % j], 1 if prog in EVENT_PROGS or prog in CLIENT_EVENT_PROGS else 0))
     # mixed kinds
-    for prog in ("preduce_auto", "pdreduce_simple", "pfor_affinity", "pipeline"):
+    for prog in ("preduce_auto", "pdreduce_simple", "pfor_affinity", "pipeline", "pipeline1"):
         for s in range(2 if quick else 10):
             kinds = [k for k in PROGS[prog][0] if k != "join"]
             fl = ["%s:%d" % (rng.choice(kinds), rng.randrange(0, 4)) for _ in range(2)]
-            specs.append(mk(prog, 3, PROGS[prog][1], ck.seed * 100003 + 9000 + s, 96, sorted(set(fl))))
+            specs.append(mk(prog, 3, PROGS[prog][1], ck.seed * 100003 + 9000 + s, 96, sorted(set(fl)), 1 if prog in CLIENT_EVENT_PROGS else 0))
+    # parallel_pipeline: tokens parked in a serial filter's buffer at the moment of cancellation (every slot of the buffer: more items than
+    # buffer slots, the fault late in the stream, many interleavings)
+    for prog in ("pipeline1", "pipeline"):
+        for s in range(5 if quick else 40):
+            for k in range(6, 27, 1 if not quick else 2):
+                specs.append(mk(prog, 2 + (s + k) % 3, 9, ck.seed * 100003 + 40000 + 97 * s + k, (16, 40, 96, 200)[(s + k) % 4], ["body:%d" % k], 1))
+    # task_arena::execute: more schedules of the three-callers program (delegation happens only when a caller finds the arena full),
+    # every caller's functor throwing in turn
+    for s in range(16 if quick else 200):
+        k = s % 3
+        specs.append(mk("arena_direct", 2 + s % 3, 3, ck.seed * 100003 + 30000 + s, (24, 48, 96, 160)[s % 4], ["body:%d" % k], 1))
+        if s % 4 == 0:
+            specs.append(mk("arena_direct", 3, 3, ck.seed * 100003 + 31000 + s, 64, ["body:0", "body:1", "body:2"], 1))
     # scripted-task trees on the real dispatcher
     for s in range(120 if quick else 3000):
         sc = random_script(rng, rng.randrange(2, 8))
@@ -593,7 +668,8 @@ def run(ck):
     ck.extra["unreproducible_crashes"] = unrepro
 
     # ---- verdicts ------------------------------------------------------------------------------------------------
-    bad_mon, bad_known, bad_corr = [], {}, []
+    bad_mon, bad_known, bad_corr, bad_client = [], {}, [], []
+    nclient = {}
     nthrow = nmulti = 0
     for sp, r in zip(all_specs, all_res):
         thrown = r["stat"].get("thrown", 0)
@@ -607,12 +683,27 @@ def run(ck):
                 bad_known.setdefault(fk, []).append((sp, r))
             else:
                 bad_mon.append((sp, r))
-            continue
+            if fk != "pipeline-cancel-leaks-buffered-tokens":
+                continue
         if sp["prog"] in EVENT_PROGS and r["ev"]:
             d, summ = validate_events(sp["prog"], r["ev"], sp.get("script"))
             ck.traces_validated += 1
             if d:
                 bad_corr.append((sp, r, d))
+        if sp["prog"] in CLIENT_EVENT_PROGS and r["ev"]:
+            try:
+                if sp["prog"] == "arena_direct":
+                    d, na = c03_clients.validate_exec(r["ev"], SKEL.get("execSkel", []))
+                elif sp["prog"].startswith("flow"):
+                    d, na = c03_clients.validate_graph(r["ev"], SKEL.get("graphSkel", []))
+                else:
+                    d, na = c03_clients.validate_pipe(r["ev"], PIPE_CLEARS[0])
+            except (KeyError, TypeError, IndexError, ValueError, AttributeError) as ex:
+                d, na = "event log cannot be interpreted (%s: %s)" % (type(ex).__name__, ex), 0
+            ck.traces_validated += 1
+            nclient[sp["prog"]] = nclient.get(sp["prog"], 0) + 1
+            if d:
+                bad_client.append((sp, r, d))
     for sp, r in zip(all_specs[:3] + specs[:3], all_res[:3] + res[:3]):
         ck.sample({"program": sp["prog"], "P": sp["P"], "size": sp["size"], "faults": sp["faults"], "seed": sp["seed"], "fault_points": r["cnt"], "objects_created/destroyed": r["obj"], "stat": r["stat"], "monitor": r["mon"]})
     ndeleg = sum(1 for r in all_res if r["stat"].get("delegthrown", 0) > 0)
@@ -628,6 +719,13 @@ def run(ck):
     ck.oblige("corr:task-level event log (take / execute-or-cancel / throw / exchange winner / exception stored / finalise / wait exit, result, reset) is a run of DispatchEH",
               "correspondence", not bad_corr,
               "" if not bad_corr else "%d logs differ; first: %s faults=%s seed=%d: %s" % (len(bad_corr), bad_corr[0][0]["prog"], bad_corr[0][0]["faults"], bad_corr[0][0]["seed"], bad_corr[0][2]))
+    ck.oblige("corr:event logs of the clients — task_arena::execute (functor begin/end, catch-block accesses to exec_context, m_wait_ctx.release, m_completed, "
+              "the caller's exception load, ~delegated_task, return/rethrow on the caller) is a run of ExecEH; graph::wait_for_all (exception that left, "
+              "is_cancelled/exception_thrown, reset) a run of GraphEH; parallel_pipeline (filter bodies, token objects created/destroyed, context words, "
+              "tokens parked at the exit, exit) a run of PipeEH", "correspondence", not bad_client,
+              "" if not bad_client else "%d logs differ; first: %s faults=%s seed=%d: %s" % (len(bad_client), bad_client[0][0]["prog"], bad_client[0][0]["faults"], bad_client[0][0]["seed"], bad_client[0][2]))
+    ck.extra["runs"]["client_event_logs_validated"] = nclient
+    bad_corr = bad_corr + bad_client
     for fk, lst in sorted(bad_known.items()):
         known = any(p == PID and k == fk for (p, k, _) in common.known_findings())
         o = {"name": "monitor:fault class '%s'" % fk, "kind": "correspondence", "ok": False,
